@@ -2,10 +2,14 @@
 (* C08: the form-urlencoded reference reading of a query string, and the rendering of a
    parameter mapping, as functions over text (sequences of code points, see UriOps).
 
-   A parse result is   [entries |-> <<[k, v, shape], ...>>, blankcsv |-> BOOLEAN]
+   A parse result is   [entries |-> <<[k, v, shape], ...>>, zero |-> <<name, ...>>, blankcsv |-> BOOLEAN]
      k      the decoded name                       v   its decoded values in order of occurrence (never empty)
      shape  "list" iff the name occurred more than once or a value was split at commas, else "scalar"
      entries are in order of first occurrence;
+     zero lists the names that are PRESENT WITH ZERO VALUES: every field of that name had a
+     comma-separated value of blank elements only, all dropped.  The property does not say whether
+     such a name is in the mapping (with an empty list) or not: both are accepted; the scalar getters
+     must treat it as absent (ParamGettersOps).
      blankcsv is TRUE iff some field's comma-separated value consisted of blank elements only and
      was therefore dropped as a whole: shape and order of the result are then not pinned down
      (only which names map to which values is).
@@ -65,14 +69,19 @@ Collect(acc, fs, kb, csv) ==
          IN  Collect(IF Kept(f, kb) THEN AddField(acc, f, kb, csv) ELSE acc, Tail(fs), kb, csv)
 
 HasValues(e) == e.v # <<>>
+NoValues(e)  == e.v = <<>>
+KeyOf(e)     == e.k
+MapKeys(es)  == [i \in 1..Len(es) |-> es[i].k]
 
 Parse(q, kb, csv) ==
     LET fs  == SplitOn(q, AMP)
         acc == Collect(<<>>, fs, kb, csv)
     IN  [entries  |-> SelectSeq(acc, HasValues),
+         zero     |-> MapKeys(SelectSeq(acc, NoValues)),
          blankcsv |-> \E i \in 1..Len(fs) : LET f == FieldOf(fs[i])
                                             IN  Kept(f, kb) /\ IsCsv(f, csv) /\ ValuesOf(f, kb, csv) = <<>>]
 
+ZeroNames(r)  == {r.zero[i] : i \in 1..Len(r.zero)}
 Names(r)      == {r.entries[i].k : i \in 1..Len(r.entries)}
 ValuesFor(r, n) == LET P == {i \in 1..Len(r.entries) : r.entries[i].k = n}
                    IN  IF P = {} THEN <<>> ELSE r.entries[MinOf(P)].v
@@ -104,5 +113,5 @@ Render(m, commaLists, prefix) ==
 
 (* what a rendered mapping must parse back to: every name with its values; an entry without values
    (an empty list) has nothing to come back *)
-AsResult(m) == [entries |-> SelectSeq(m, HasValues), blankcsv |-> FALSE]
+AsResult(m) == [entries |-> SelectSeq(m, HasValues), zero |-> <<>>, blankcsv |-> FALSE]
 ===========================================================================
